@@ -188,7 +188,7 @@ pub fn generate(ctx: &mut Ctx) {
         }
     }
     // longer streams: random 2-3 cuts and notify subsets
-    let n = if thorough { 150_000 } else { 6_000 };
+    let n = if thorough { 600_000 } else { 40_000 };
     for _ in 0..n {
         let k = rng.range(1, 4) as usize;
         let mut s = Vec::new();
